@@ -532,10 +532,117 @@ Lemma native_unguarded_panics :
                            n_custom := false; n_regs := [RgHttp true false; RgNil] |} = HPanic.
 Proof. reflexivity. Qed.
 
+(* ---- layer (c''): credentials by value ---- *)
+Lemma escape_char_facts (a : ascii) :
+  (unreserved a = true ->
+     Ascii.eqb a "%"%char = false /\ Ascii.eqb a "+"%char = false /\ Ascii.eqb a ":"%char = false) /\
+  (unreserved a = false ->
+     let n := nat_of_ascii a in
+     hexval (hexdigit (n / 16)) = Some (n / 16) /\ hexval (hexdigit (n mod 16)) = Some (n mod 16) /\
+     ascii_of_nat (16 * (n / 16) + n mod 16) = a /\
+     Ascii.eqb (hexdigit (n / 16)) ":"%char = false /\ Ascii.eqb (hexdigit (n mod 16)) ":"%char = false).
+Proof.
+  destruct a as [[] [] [] [] [] [] [] []]; vm_compute; split; intro H; try discriminate H; repeat split.
+Qed.
+
+Lemma unescape_query_escape (s : string) : unescape true (query_escape s) = Ok s.
+Proof.
+  induction s as [|a r IH]; [reflexivity|].
+  cbn [query_escape]. destruct (escape_char_facts a) as [U N].
+  destruct (unreserved a) eqn:E.
+  - destruct (U eq_refl) as (P & Q & _). cbn [unescape]. rewrite P, IH, Q. reflexivity.
+  - destruct (Ascii.eqb a " "%char) eqn:S.
+    + apply Ascii.eqb_eq in S. subst a. cbn [unescape]. rewrite IH. reflexivity.
+    + destruct (N eq_refl) as (H1 & H2 & H3 & _). cbn zeta in H1, H2, H3.
+      cbn [unescape]. rewrite Ascii.eqb_refl, H1, H2, IH, H3. reflexivity.
+Qed.
+
+Lemma cut_colon_query_escape (s x : string) :
+  cut_colon (String.append (query_escape s) (String ":"%char x)) = Some (query_escape s, x).
+Proof.
+  induction s as [|a r IH]; [reflexivity|].
+  cbn [query_escape]. destruct (escape_char_facts a) as [U N].
+  destruct (unreserved a) eqn:E.
+  - destruct (U eq_refl) as (_ & _ & C). cbn [String.append cut_colon]. rewrite C, IH. reflexivity.
+  - destruct (Ascii.eqb a " "%char) eqn:S.
+    + cbn [String.append cut_colon]. rewrite IH. reflexivity.
+    + destruct (N eq_refl) as (_ & _ & _ & C1 & C2). cbn zeta in C1, C2.
+      cbn [String.append cut_colon]. rewrite C1, C2, IH. reflexivity.
+Qed.
+
+Lemma basic_decode_conforming (i x : string) :
+  basic_decode true true (basic_payload i x) = Some (i, x).
+Proof.
+  unfold basic_decode, basic_payload. rewrite cut_colon_query_escape, !unescape_query_escape. reflexivity.
+Qed.
+
+Lemma cred_conforming_accepted (k : kshape) :
+  kshape_wf k = true -> k_sent k = SBasic (basic_payload (k_id k) (k_secret k)) ->
+  cred_handler true true k = HAccepted.
+Proof.
+  intros W S. unfold cred_handler, cred_accepts. rewrite S, basic_decode_conforming.
+  unfold matches. rewrite !String.eqb_refl.
+  unfold kshape_wf in W. apply andb_prop in W as [_ W]. rewrite W. reflexivity.
+Qed.
+
+Lemma matches_eq qk i x : matches qk i x = true -> i = k_id qk /\ x = k_secret qk /\ x <> "".
+Proof.
+  unfold matches. intro H. apply andb_prop in H as [H E]. apply andb_prop in H as [I X].
+  apply String.eqb_eq in I. apply String.eqb_eq in X. repeat split; try assumption.
+  intro Z. subst x. rewrite Z in E. discriminate E.
+Qed.
+
+Lemma cred_accepted_only_registered (k : kshape) :
+  cred_handler true true k = HAccepted ->
+  match k_sent k with
+  | SBasic p => exists i x, cut_colon p = Some (i, x) /\
+                            unescape true i = Ok (k_id k) /\ unescape true x = Ok (k_secret k) /\ k_secret k <> ""
+  | SPost i x => i = k_id k /\ (post_mode (k_entry k) (k_ep k) = PIdOnly \/ (x = k_secret k /\ x <> ""))
+  end.
+Proof.
+  unfold cred_handler, cred_accepts. destruct (k_sent k) as [p|i x].
+  - unfold basic_decode. destruct (cut_colon p) as [[i x]|] eqn:C; [|discriminate].
+    destruct (unescape true i) as [i'| |] eqn:UI; try discriminate.
+    destruct (unescape true x) as [x'| |] eqn:UX; try discriminate.
+    destruct (matches k i' x') eqn:M; [|discriminate]. intros _.
+    apply matches_eq in M as (I & X & NE). exists i, x. rewrite UI, UX, <- I, <- X.
+    split; [reflexivity|]. split; [reflexivity|]. split; [reflexivity|]. exact NE.
+  - destruct (post_mode (k_entry k) (k_ep k)).
+    + destruct (matches k i x) eqn:M; [|discriminate]. intros _.
+      apply matches_eq in M as (I & X & NE). split; [assumption|]. right. split; assumption.
+    + destruct (String.eqb i (k_id k)) eqn:I; [|discriminate]. intros _.
+      apply String.eqb_eq in I. split; [assumption|]. left. reflexivity.
+    + discriminate.
+Qed.
+
+Lemma cred_handler_total qi qs (k : kshape) :
+  cred_handler qi qs k = HRefused \/ cred_handler qi qs k = HAccepted.
+Proof. unfold cred_handler. destruct (cred_accepts qi qs k); [right|left]; reflexivity. Qed.
+
+Lemma cred_bad_escape_refused (k : kshape) (p : string) :
+  k_sent k = SBasic p -> basic_decode true true p = None -> cred_handler true true k = HRefused.
+Proof. intros S D. unfold cred_handler, cred_accepts. rewrite S, D. reflexivity. Qed.
+
+Definition k_witness : kshape :=
+  {| k_entry := ViaProvider; k_ep := EClientCred; k_id := "svc"; k_secret := "a b";
+     k_sent := SBasic (basic_payload "svc" "a b") |}.
+
+Lemma cred_path_unescape_refuses_conforming :
+  kshape_wf k_witness = true /\ k_sent k_witness = SBasic "svc:a+b" /\
+  cred_handler true true k_witness = HAccepted /\ cred_handler true false k_witness = HRefused.
+Proof. repeat split; reflexivity. Qed.
+
+Example cred_conforming_nonvacuous :
+  kshape_wf k_witness = true /\ k_sent k_witness = SBasic (basic_payload (k_id k_witness) (k_secret k_witness)) /\
+  model (ICred k_witness) = OHint HAccepted /\
+  model (ICred {| k_entry := ViaLegacy; k_ep := ERevoke; k_id := "svc"; k_secret := "a+b"; k_sent := SBasic "svc:a+b" |}) = OHint HRefused /\
+  model (ICred {| k_entry := ViaProvider; k_ep := ECode; k_id := "svc"; k_secret := "s"; k_sent := SBasic "svc:%zz" |}) = OHint HRefused.
+Proof. repeat split; reflexivity. Qed.
+
 (* ---- central theorem ---- *)
 Lemma spec_model i : spec i (model i) = true.
 Proof.
-  destruct i as [d m j t|k tok t|s|x|hc he hh|cx|be bh bo|au|ro|nn|e c q|h a e t|dev tok t|o|n amount dash]; cbn.
+  destruct i as [d m j t|k tok t|s|x|hc he hh|cx|be bh bo|au|ro|nn|e c q|h a e t|dev tok t|o|n amount dash|kk]; cbn.
   - pose proof (decode_total t d j) as H. destruct (decode t d j); try reflexivity. now elim H.
   - pose proof (verify_total (time_of t) (lang_of t) k tok) as H.
     destruct (verify _ _ true true k tok); try reflexivity. now elim H.
@@ -558,6 +665,7 @@ Proof.
   - unfold decrypt_aes. destruct (ot_other o); [reflexivity|].
     destruct (ot_chars o mod 4 =? 1)%N; [reflexivity|]. destruct (decoded_len (ot_chars o) <? 16)%N; reflexivity.
   - destruct ((n <=? 0)%Z || (amount <=? 0)%Z); reflexivity.
+  - destruct (cred_handler_total true true kk) as [H|H]; rewrite H; reflexivity.
 Qed.
 
 Example spec_model_nonvacuous :
@@ -693,3 +801,12 @@ Proof. intros f g; split; intros; [apply call_returns | apply device_flow_return
 
 Lemma native_unguarded_refuted : exists n, native_redirect false n = HPanic.
 Proof. eexists. exact native_unguarded_panics. Qed.
+
+Lemma credentials_total :
+  forall k : kshape, cred_handler true true k = HRefused \/ cred_handler true true k = HAccepted.
+Proof. intro k. apply cred_handler_total. Qed.
+
+Lemma basic_path_unescape_refuted :
+  exists k, kshape_wf k = true /\ k_sent k = SBasic (basic_payload (k_id k) (k_secret k)) /\
+            cred_handler true false k = HRefused.
+Proof. exists k_witness. repeat split; reflexivity. Qed.
